@@ -189,8 +189,10 @@ class LogicalType(type):  # noqa
         args = []
         resolved = False
         for i, arg in enumerate(cls.args):
-            arg, resolved = resolve_forward_type(arg)
-            if resolved:
+            arg, arg_resolved = resolve_forward_type(arg)
+            if arg_resolved:
+                # (any resolved arg counts: the flag of the last arg alone decided whether the args were adjusted)
+                resolved = True
                 arg = cls._parse_arg(arg)
             args.append(arg)
         if resolved:
@@ -1910,6 +1912,10 @@ class Rule(metaclass=LogicalType):
     def resolve_forward_refs(cls):
         # an override version of LogicalType.resolve_forward_refs
         if not cls.__args__:
+            origin = cls.__origin__
+            if isinstance(origin, LogicalType) and origin.combinator:
+                # a rule over a combinator (a field annotated Union['A', 'B']): the references are the combinator's
+                return origin.resolve_forward_refs()
             return False
         args = []
         arg_transformers = []
